@@ -561,6 +561,12 @@ def const_branch(cx, inst, items, E, node):
         if d == IN:
             return cx.rep.fail(rule, inst, "constant is narrowed with int(): SX(2.5) becomes 2", where=cx.at(node))
     elif two is not None:
+        c0 = two[0]
+        if isinstance(c0, ast.Compare) and len(c0.ops) == 1 and isinstance(c0.ops[0], (ast.Lt, ast.LtE)) and D(c0.left) == P("float({e}) - int({e})".format(e=E)) \
+                and isinstance(c0.comparators[0], ast.Constant) and isinstance(c0.comparators[0].value, (int, float)) and c0.comparators[0].value > 0 \
+                and D(strip(two[1])) == IN:
+            return cx.rep.fail(rule, inst, "one-sided tolerance `%s`: int() truncates toward zero, so for every negative non-integer the difference is negative and the integer is returned: -2.5 becomes -2" % U(c0),
+                               where=cx.at(node))
         t, a, b = D(two[0]), D(strip(two[1])), D(strip(two[2]))
         if t in [P(x.format(e=E)) for x in ne]:
             t, a, b = "eq", b, a
